@@ -2531,16 +2531,26 @@ theorem max_pool_agrees (k : Nat) (s : Shape) (kl sl p dl : List Int) (ceil : Bo
         have : s.length - k = 2 := by omega
         rw [this]
 
-theorem conv_expand_full (l : List Int) (k : Nat) (h : l.length = k) (hk : 2 ≤ k) :
+theorem conv_expand_full (l : List Int) (k : Nat) (h : l.length = k) (hk : 1 ≤ k) :
     (if l.length = 1 then List.replicate k (l.getD 0 0) else l) = l := by
-  have : ¬ l.length = 1 := by omega
-  simp [this]
+  split
+  · next h1 =>
+    have : k = 1 := by omega
+    subst this
+    match l, h1 with
+    | [x], _ => rfl
+  · rfl
 
 theorem conv_agrees (s w : Shape) (sl p dl : List Int) (tr : Bool) (op : List Int) (g : Nat) (out : Shape)
-    (hk : 2 ≤ s.length - 2) (h2 : sl.length = s.length - 2) (h3 : p.length = s.length - 2) (h4 : dl.length = s.length - 2)
+    (h2 : sl.length = s.length - 2) (h3 : p.length = s.length - 2) (h4 : dl.length = s.length - 2)
     (h : conv.spec s w (.list sl) (.list p) (.list dl) tr op g = some out) :
     conv.model s w (.list sl) (.list p) (.list dl) tr op g = some out := by
-  have hk1 : 1 ≤ s.length - 2 := by omega
+  have hk : 1 ≤ s.length - 2 := by
+    apply Classical.byContradiction; intro hh
+    have : s.length < 3 := by omega
+    unfold conv.spec at h
+    simp [this] at h
+  have hk1 : 1 ≤ s.length - 2 := hk
   have hav : attr.convolution (s.length - 2) (.list sl) (.list p) (.list dl) = (sl, p ++ p, dl) := by
     unfold attr.convolution
     simp only [conv_expand_full sl _ h2 hk, conv_expand_full p _ h3 hk, conv_expand_full dl _ h4 hk]
@@ -3172,33 +3182,69 @@ theorem embedding_agrees (w idx out : Shape) (h : embedding.spec w idx = some ou
   · injection h with h; subst h; simp [embedding.model]
   · cases h
 
-theorem scatter_agrees (isAdd : Bool) (s idx : Shape) (dim : Int) (out : Shape)
-    (hr : s.length ≠ 0) (hi : idx.length ≠ 0)
-    (h : scatter.spec s idx idx dim = some out) : scatter.model isAdd s idx idx dim = some out := by
+theorem zipWith_min_of_le : ∀ (src idx : List Nat), src.length = idx.length →
+    (∀ i, i < idx.length → idx.getD i 0 ≤ src.getD i 0) → List.zipWith min src idx = idx
+  | [], [], _, _ => rfl
+  | [], _ :: _, h, _ => by simp at h
+  | _ :: _, [], h, _ => by simp at h
+  | a :: xs, b :: ys, hl, hp => by
+    have h0 := hp 0 (by simp)
+    simp only [List.getD_cons_zero] at h0
+    have ih := zipWith_min_of_le xs ys (by simpa using hl) (fun i hi => by
+      have := hp (i + 1) (by simp; omega)
+      simpa using this)
+    simp only [List.zipWith_cons_cons, ih]
+    congr 1
+    omega
+
+/-- after fix 33c2a16: `src` may be larger than `index` (it is cut to the index shape). -/
+theorem scatter_agrees (isAdd : Bool) (s idx src : Shape) (dim : Int) (out : Shape)
+    (hr : s.length ≠ 0) (hi : idx.length ≠ 0) (hs : src.length ≠ 0)
+    (h : scatter.spec s idx src dim = some out) : scatter.model isAdd s idx src dim = some out := by
   unfold scatter.spec at h
-  unfold scatter.model scatterElements
-  simp only [hr, hi, if_false, and_false] at h ⊢
+  unfold scatter.model
+  simp only [hr, hi, hs, if_false, and_false] at h ⊢
   cases ha : torchDim s.length dim with
   | none => rw [ha] at h; cases h
   | some a =>
     rw [ha] at h
     have han : normAxis s.length dim = some a := by unfold torchDim at ha; simpa [hr] using ha
-    simp only [han]
     simp only at h
-    by_cases hlen : idx.length = s.length
-    · simp only [hlen, ne_eq, not_true_eq_false, or_self, if_false] at h ⊢
-      by_cases hall : ((List.range s.length).all fun i => decide (idx.getD i 0 ≤ idx.getD i 0) && (i == a || decide (idx.getD i 0 ≤ s.getD i 0))) = true
+    by_cases hlen : idx.length ≠ s.length ∨ src.length ≠ s.length
+    · rw [if_pos hlen] at h; cases h
+    · rw [if_neg hlen] at h
+      have hl1 : idx.length = s.length := by
+        apply Classical.byContradiction; intro hh; exact hlen (Or.inl hh)
+      have hl2 : src.length = s.length := by
+        apply Classical.byContradiction; intro hh; exact hlen (Or.inr hh)
+      by_cases hall : ((List.range s.length).all fun i => decide (idx.getD i 0 ≤ src.getD i 0) && (i == a || decide (idx.getD i 0 ≤ s.getD i 0))) = true
       · rw [if_pos hall] at h
+        rw [List.all_eq_true] at hall
+        have hle : ∀ i, i < idx.length → idx.getD i 0 ≤ src.getD i 0 := by
+          intro i hi'
+          have := hall i (by simp; omega)
+          simp only [Bool.and_eq_true, decide_eq_true_eq] at this
+          exact this.1
+        have hcut : scatter.sliceToIndex src idx = some idx := by
+          unfold scatter.sliceToIndex
+          by_cases he : src = idx
+          · simp [he]
+          · have hnl : ¬ src.length < idx.length := by omega
+            simp only [he, hnl, if_false]
+            rw [zipWith_min_of_le src idx (by omega) hle]
+            have : src.drop idx.length = [] := List.drop_of_length_le (by omega)
+            simp [this]
+        simp only [hcut]
+        unfold scatterElements
+        simp only [han, hl1, ne_eq, not_true_eq_false, or_self, if_false]
         rw [if_pos]
         · exact h
-        · rw [List.all_eq_true] at hall ⊢
+        · rw [List.all_eq_true]
           intro i hi'
           have := hall i hi'
           simp only [Bool.and_eq_true, Bool.or_eq_true, decide_eq_true_eq] at this ⊢
           exact this.2
       · rw [if_neg hall] at h; cases h
-    · simp only [hlen, ne_eq, not_false_eq_true, or_self, if_true] at h
-      cases h
 
 theorem resolveZeros_nozero (az : Bool) (inp : Shape) (tgt : List Int) (i : Nat) (h : ∀ t ∈ tgt, t ≠ 0) :
     resolveZeros az inp tgt i = some tgt := by
@@ -3286,8 +3332,8 @@ theorem sliceShape_chw (s : Shape) (h : 3 ≤ s.length) : sliceShape s (-3) (s.l
 theorem getD_drop' (s : Shape) (k i : Nat) : (s.drop k).getD i 0 = s.getD (k + i) 0 := by
   simp [List.getD_eq_getElem?_getD, List.getElem?_drop]
 
+/-- after fix fcb6f44 (static shapes computed at trace time): no hypothesis on empty tensors. -/
 theorem pixel_shuffle_agrees (s : Shape) (r : Int) (out : Shape)
-    (hne : s.length = 4 ∨ ∀ x ∈ s, x ≠ 0)
     (h : pixel_shuffle.spec s r = some out) : pixel_shuffle.model s r = some out := by
   unfold pixel_shuffle.spec at h
   split at h
@@ -3295,6 +3341,7 @@ theorem pixel_shuffle_agrees (s : Shape) (r : Int) (out : Shape)
   · next hc =>
     have h3 : 3 ≤ s.length := by omega
     have hr : ¬ r ≤ 0 := by omega
+    have hr0 : ¬ r = 0 := by omega
     unfold pixel_shuffle.model
     by_cases h4 : s.length = 4
     · simp only [h4, if_true]
@@ -3304,9 +3351,8 @@ theorem pixel_shuffle_agrees (s : Shape) (r : Int) (out : Shape)
         unfold depthToSpace
         simp only [hr, if_false]
         simpa using h
-    · have hnz : ∀ x ∈ s, x ≠ 0 := by rcases hne with h' | h'; exact absurd h' h4; exact h'
-      simp only [h4, if_false]
-      rw [sliceShape_batch s h3, sliceShape_chw s h3]
+    · simp only [h4, h3, hr0, if_false, if_true]
+      unfold pixel_shuffle.staticOut
       generalize hk : s.length - 3 = k at *
       have hdl : (s.drop k).length = 3 := by simp; omega
       have g0 := getD_drop' s k 0
@@ -3316,12 +3362,12 @@ theorem pixel_shuffle_agrees (s : Shape) (r : Int) (out : Shape)
       | [c, hh, w], _ =>
         rw [hd] at g0 g1 g2
         simp only [List.getD_cons_zero, List.getD_cons_succ, Nat.add_zero] at g0 g1 g2
-        simp only [← g0, ← g1, ← g2] at h
-        have hsplit : numel s = numel (s.take k) * numel [c, hh, w] := by
-          rw [← hd, ← numel_append, List.take_append_drop]
-        have hpos : ∀ x ∈ [c, hh, w], x ≠ 0 := by
-          intro x hx; rw [← hd] at hx; exact hnz x (List.mem_of_mem_drop hx)
-        rw [reshape_neg1_head false s [c, hh, w] (numel (s.take k)) hpos hsplit]
+        simp only [← g0, ← g1, ← g2] at h ⊢
+        have hsplit : numel (numel (s.take k) :: [c, hh, w]) = numel s := by
+          have : numel s = numel (s.take k) * numel [c, hh, w] := by
+            rw [← hd, ← numel_append, List.take_append_drop]
+          rw [this]; rfl
+        rw [reshape_static s _ hsplit]
         simp only
         unfold depthToSpace
         simp only [hr, if_false]
@@ -3330,7 +3376,6 @@ theorem pixel_shuffle_agrees (s : Shape) (r : Int) (out : Shape)
         · next hmod =>
           simp only [hmod, if_false]
           injection h with h; subst h
-          simp only [List.drop_succ_cons, List.drop_zero]
           apply reshape_static
           simp only [numel_append, numel, Nat.mul_one]
 
@@ -3466,5 +3511,208 @@ theorem logcumsumexp_agrees (s : Shape) (dim : Int) (out : Shape)
       simp only [List.mapM_cons, List.mapM_nil, han, bind, Option.bind, pure, List.isEmpty_cons, Bool.false_eq_true, if_false, if_true,
         bcast2_keepdims]
       exact h
+
+/-! ## conv1d / conv2d / conv3d -/
+
+theorem convnd_agrees (s w : Shape) (hasBias : Bool) (st pad dil : List Int) (groups : Nat) (out : Shape)
+    (h2 : st.length = s.length - 2) (h3 : pad.length = s.length - 2) (h4 : dil.length = s.length - 2)
+    (h : convnd.spec s w st pad dil groups = some out) : convnd.model s w hasBias st pad dil groups = some out := by
+  unfold convnd.spec at h
+  unfold convnd.model convnd.biasShape
+  simp only [ite_self, ne_eq, not_true_eq_false, if_false]
+  exact conv_agrees s w _ _ _ false [] groups out h2 h3 h4 h
+
+/-! ## softmax family, linear -/
+
+theorem softmax_agrees (s : Shape) (dim : Int) : softmax.model s dim = softmax.spec s dim := rfl
+
+theorem bcastRev_nil_right (s : List Nat) : bcastRev s [] = some s := by
+  cases s <;> rfl
+
+theorem bcast2_nil_right (s : Shape) : bcast2 s [] = some s := by
+  unfold bcast2; simp [bcastRev_nil_right]
+
+/-- MatMul of a rank ≥ 1 tensor `[*, k]` with a matrix `[k, n]`: `[*, n]`. -/
+theorem matmul_matrix (x : Shape) (k n : Nat) (hx : x.length ≠ 0) (hk : x.getD (x.length - 1) 0 = k) :
+    matmulOp x [k, n] = some (x.take (x.length - 1) ++ [n]) := by
+  unfold matmulOp
+  simp only [hx, List.length_cons, List.length_nil, false_or, if_false, show ¬ (0 + 1 + 1 = 0) from by omega,
+    show ¬ (0 + 1 + 1 = 1) from by omega]
+  by_cases h1 : x.length = 1
+  · match x, h1 with
+    | [a], _ =>
+      simp at hk; subst hk
+      simp [bcast2, bcastRev]
+  · simp only [h1, if_false]
+    have e0 : (0 + 1 + 1 - 2) = 0 := rfl
+    simp only [e0, List.getD_cons_zero, hk, ne_eq, not_true_eq_false, if_false, List.take_zero, bcast2_nil_right]
+    have : x.take (x.length - 2) ++ [x.getD (x.length - 2) 0] = x.take (x.length - 1) := by
+      have hl : x.length - 1 = (x.length - 2) + 1 := by omega
+      rw [hl, List.take_add_one]
+      have : x.length - 2 < x.length := by omega
+      simp [List.getD_eq_getElem?_getD, List.getElem?_eq_getElem this]
+    simp [← this]
+
+theorem squeeze_last (t : Shape) : squeezeOp (t ++ [1]) [-1] = some t := by
+  unfold squeezeOp normAxes
+  have hn : normAxis (t ++ [1]).length (-1) = some t.length := by
+    unfold normAxis
+    simp only [List.length_append, List.length_singleton]
+    have c1 : ¬ (0 ≤ (-1 : Int) ∧ (-1 : Int) < ((t.length + 1 : Nat) : Int)) := by omega
+    have c2 : -((t.length + 1 : Nat) : Int) ≤ -1 ∧ (-1 : Int) < 0 := by omega
+    simp only [c1, c2, and_self, if_false, if_true]
+    congr 1; omega
+  simp only [List.mapM_cons, List.mapM_nil, hn, bind, Option.bind, pure]
+  have hg : (t ++ [1]).getD t.length 0 = 1 := by simp [List.getD_eq_getElem?_getD]
+  simp only [List.all_cons, List.all_nil, hg, beq_self_eq_true, Bool.and_self, if_true]
+  rw [removeIdxs_single]
+  simp
+
+theorem expand_bias (m n : Nat) : expandOp [n] [m, n] = some [m, n] := by
+  simp [expandOp, bcastRev]
+
+theorem bcast2_last (t : Shape) (n : Nat) : bcast2 (t ++ [n]) [n] = some (t ++ [n]) := by
+  unfold bcast2
+  simp only [List.reverse_append, List.reverse_cons, List.reverse_nil, List.nil_append, List.singleton_append]
+  simp [bcastRev, bcastRev_nil_right]
+
+theorem linear_agrees (x w : Shape) (bias : Option Shape) (out : Shape)
+    (h : linear.spec x w bias = some out) : linear.model x w bias = some out := by
+  unfold linear.spec at h
+  split at h
+  · cases h
+  · next hx =>
+    split at h
+    · next k =>
+      -- 1-D weight
+      split at h
+      · cases h
+      · next hc =>
+        have hb : bias.isSome = false := by
+          cases hbb : bias.isSome with
+          | false => rfl
+          | true => exact absurd (Or.inl hbb) hc
+        have hk : x.getD (x.length - 1) 0 = k := by
+          apply Classical.byContradiction; intro hh; exact hc (Or.inr hh)
+        injection h with h; subst h
+        unfold linear.model
+        have c1 : ¬ (x.length = 2 ∧ 1 = 2) := by omega
+        simp only [List.length_singleton, c1, if_false, if_true, hb, Bool.false_eq_true]
+        show (match matmulOp x [k, 1] with | none => none | some o => squeezeOp o [-1]) = _
+        rw [matmul_matrix x k 1 hx hk]
+        exact squeeze_last _
+    · next n k =>
+      split at h
+      · cases h
+      · next hk' =>
+        have hk : x.getD (x.length - 1) 0 = k := by
+          apply Classical.byContradiction; intro hh; exact hk' hh
+        unfold linear.model
+        by_cases h2 : x.length = 2
+        · -- Gemm
+          match x, h2 with
+          | [m, k0], _ =>
+            simp at hk; subst hk
+            simp only [List.length_cons, List.length_nil, and_self, if_true]
+            unfold linear.gemmTransB
+            simp only [ne_eq, not_true_eq_false, if_false]
+            cases bias with
+            | none => simpa using h
+            | some b =>
+              simp only at h ⊢
+              split at h
+              · next hb => subst hb; injection h with h; subst h; simp [expand_bias]
+              · cases h
+        · have c1 : ¬ (x.length = 2 ∧ [n, k].length = 2) := by intro hh; exact h2 hh.1
+          have c2 : ¬ ([n, k].length = 1) := by simp
+          have c3 : ¬ ([n, k].length ≠ 2) := by simp
+          simp only [c1, c2, c3, if_false]
+          show (match matmulOp x [k, n] with | none => none | some o => match bias with | none => some o | some b => bcast2 o b) = _
+          rw [matmul_matrix x k n hx hk]
+          cases bias with
+          | none => simpa using h
+          | some b =>
+            simp only at h ⊢
+            split at h
+            · next hb => subst hb; injection h with h; subst h; exact bcast2_last _ _
+            · cases h
+    · cases h
+
+/-! ## linalg_vector_norm -/
+
+theorem reduceDyn_agrees (s : Shape) (dims : List Int) (keep : Bool) (out : Shape)
+    (h : torchReduce s dims keep = some out) : reduceDyn s dims keep = some out := by
+  unfold reduceDyn
+  by_cases hr : s.length = 0
+  · have hs : s = [] := List.length_eq_zero_iff.mp hr
+    subst hs
+    have ho := torchReduce_rank0 dims keep out h
+    subst ho
+    simp only [List.length_nil, if_true]
+    unfold torchReduce at h
+    cases hm : dims.mapM (torchDim ([] : Shape).length) with
+    | none => rw [hm] at h; simp at h
+    | some ax =>
+      have aux : ∀ (l : List Int) (q : List Nat), l.mapM (torchDim 0) = some q → l.all (fun a => a == 0 || a == -1) = true := by
+        intro l
+        induction l with
+        | nil => intro q _; rfl
+        | cons t ts ih =>
+          intro q hq
+          rw [List.mapM_cons] at hq
+          cases h1 : torchDim 0 t with
+          | none => simp [h1] at hq
+          | some k =>
+            cases h2 : ts.mapM (torchDim 0) with
+            | none => simp [h1, h2] at hq
+            | some q' =>
+              have ht : t = 0 ∨ t = -1 := by
+                unfold torchDim at h1
+                simp only [if_true] at h1
+                obtain ⟨a1, a2, a3⟩ := normAxis_some _ _ _ h1
+                split at a1 <;> omega
+              rw [List.all_cons, ih q' h2]
+              rcases ht with rfl | rfl <;> simp
+      rw [aux dims ax hm]
+      simp
+  · simp only [hr, if_false]
+    exact reduce_agrees s dims keep out hr h
+
+theorem reshape_ones0 (r : Nat) : reshape false [] (List.replicate r 1) = some (List.replicate r 1) := by
+  unfold reshape
+  have h1 : (List.replicate r (1:Int)).any (· < -1) = false := by
+    rw [List.any_eq_false]; intro x hx; simp [List.mem_replicate] at hx; simp [hx.2]
+  have h2 : countNeg1 (List.replicate r (1:Int)) = 0 := by
+    unfold countNeg1
+    rw [List.length_eq_zero_iff, List.filter_eq_nil_iff]
+    intro x hx; simp [List.mem_replicate] at hx; simp [hx.2]
+  simp only [h1, h2, Bool.false_eq_true, if_false, resolveZeros_ones, knownProd_replicate_one, gt_iff_lt, Nat.not_lt_zero]
+  simp [numel]
+
+/-- after fix 7d29f42: `dim=None` with `keepdim=True` included. -/
+theorem vector_norm_agrees (s : Shape) (dims : Option (List Int)) (keep : Bool) (out : Shape)
+    (h : vector_norm.spec s dims keep = some out) : vector_norm.model s dims keep = some out := by
+  unfold vector_norm.spec at h
+  unfold vector_norm.model
+  cases dims with
+  | none =>
+    simp only [reshape_flat]
+    have hred : reduceOp [numel s] [] false = some [] := by simp [reduceOp, normAxes, removeIdxs]
+    simp only [hred]
+    simp only at h
+    by_cases hk : keep = true ∧ 0 < s.length
+    · simp only [hk, and_self, if_true] at h ⊢
+      injection h with h; subst h
+      exact reshape_ones0 s.length
+    · simp only [hk, if_false]
+      split at h
+      · next hkeep =>
+        have hz : s.length = 0 := by
+          apply Classical.byContradiction; intro hh; exact hk ⟨hkeep, by omega⟩
+        injection h with h; rw [← h, hz]; rfl
+      · exact h
+  | some ds =>
+    simp only at h ⊢
+    exact reduceDyn_agrees s ds keep out h
 
 end OV.Lemmas.C08
